@@ -228,7 +228,7 @@ namespace Givaro {
     {
 
         if (p ==0)
-            return &(GivMMFreeList::_allocate(newsize+sizeof(int64_t))->data[1]) ;
+            return GivMMRefCount::allocate(newsize) ;
 
 
         BlocFreeList* tmp = reinterpret_cast<BlocFreeList*>(((char*)p)-sizeof(BlocFreeList));
